@@ -1,8 +1,10 @@
 package main
 
 import (
+	"fmt"
 	"go/token"
 	"go/types"
+	"sort"
 	"strings"
 
 	"golang.org/x/tools/go/ssa"
@@ -1112,5 +1114,400 @@ func checkDecoderRejects(p *Prog, r *Report) {
 	}
 	if n == 0 {
 		r.Unk(rule, "decoder rejections", p.Pos(dec.Pos()), "the decoder no longer constructs any error of its own: the length bounds (C08, C17) may have gone, re-read")
+	}
+}
+
+// checkSuccessMeansReplaced — C01/SUCCESS-MEANS-REPLACED: the generator asked
+// for this file, so a successful return of receiveData has to mean that the
+// reconstructed (and verified) bytes were installed: every nil return of
+// receiveData is dominated by the atomic replace of the pending file. A path
+// that verifies the temporary file and then keeps the old destination
+// ("nothing changed, only metadata") reports success for bytes that were
+// never compared with anything.
+func checkSuccessMeansReplaced(p *Prog, r *Report) {
+	rule := "C01/SUCCESS-MEANS-REPLACED"
+	r.Rule(rule, "every nil-error return of receiver.(*Transfer).receiveData is dominated by (*renameio.PendingFile).CloseAtomicallyReplace (directly, or by a call of a same-package helper all of whose nil returns are): a file the generator requested is reported as received only when the reconstructed bytes were installed", 1)
+	rd := anchorFunc(p, r, pkgReceiver, "Transfer", "receiveData")
+	if rd == nil {
+		return
+	}
+	var installs func(fn *ssa.Function, depth int) []ssa.Instruction
+	nilRetsDominated := func(fn *ssa.Function, by []ssa.Instruction) (bool, string) {
+		n := 0
+		for _, b := range fn.Blocks {
+			ret, ok := lastInstr(b).(*ssa.Return)
+			if !ok || len(retResults(ret)) == 0 {
+				continue
+			}
+			res := retResults(ret)
+			last := res[len(res)-1]
+			if !isNilConst(last) {
+				// `return helper(...)`: fine when the helper is itself an installing call
+				isInst := false
+				for _, in := range by {
+					if v, ok := in.(ssa.Value); ok && v == last {
+						isInst = true
+					}
+				}
+				if isInst {
+					n++
+				}
+				continue
+			}
+			n++
+			dom := false
+			for _, in := range by {
+				if InstrDominates(in, ret) {
+					dom = true
+				}
+			}
+			if !dom {
+				return false, p.Pos(ret.Pos())
+			}
+		}
+		return n > 0, ""
+	}
+	installs = func(fn *ssa.Function, depth int) []ssa.Instruction {
+		var out []ssa.Instruction
+		allCalls(fn, func(c ssa.CallInstruction) {
+			if _, isDefer := c.(*ssa.Defer); isDefer {
+				return
+			}
+			if calleeName(c) == fnCloseReplace {
+				out = append(out, c)
+				return
+			}
+			if strings.HasSuffix(calleeName(c), ".CloseAtomicallyReplace") {
+				out = append(out, c)
+				return
+			}
+			h := c.Common().StaticCallee()
+			if h != nil && h.Blocks != nil && pkgPathOfFunc(h) == pkgReceiver && h != fn && depth < 2 {
+				if ok, _ := nilRetsDominated(h, installs(h, depth+1)); ok {
+					out = append(out, c)
+				}
+			}
+		})
+		return out
+	}
+	inst := installs(rd, 0)
+	if len(inst) == 0 {
+		r.Bad(rule, "receiveData installs the received file", p.Pos(rd.Pos()), "no CloseAtomicallyReplace reachable in receiveData")
+		return
+	}
+	ok, where := nilRetsDominated(rd, inst)
+	r.Cond(ok, rule, "receiveData installs the received file", p.Pos(rd.Pos()), "the nil return at "+where+" is not dominated by the atomic replace: success is reported although the destination still holds its old bytes")
+}
+
+// checkAnonNoAmbientWrites — C20/ANON-NO-FS-WRITE: an anonymous SSH session
+// may only talk the daemon protocol against the configured modules. What the
+// daemon writes on behalf of a module is C07's and C05's subject (package
+// rsyncd and below); the code in front of it — anonSSHMain and whatever it
+// reaches in packages maincmd, rsyncopts and rsyncdconfig — runs on the
+// peer's exec command line and must not create, open for writing, remove or
+// rename anything through an ambient path API: a path there can only come from
+// the peer's words or from configuration the peer selected with them.
+func checkAnonNoAmbientWrites(p *Prog, r *Report) {
+	rule := "C20/ANON-NO-FS-WRITE"
+	r.Rule(rule, "no function of packages maincmd, rsyncopts or rsyncdconfig that is reachable from the anonymous exec entry (maincmd.anonSSHMain) calls a file-system mutator (create/open-for-write/mkdir/remove/rename/chmod … through os, syscall or unix path APIs): in front of the module code an anonymous peer's command line cannot make the process write outside the modules", 1)
+	g := p.ModGraph()
+	entry := p.Func(pkgMaincmd, "", "anonSSHMain")
+	if entry == nil {
+		r.Unk(rule, "anchor", "-", "maincmd.anonSSHMain not found: the anonymous exec path moved, re-anchor")
+		return
+	}
+	reach := g.Reach([]*ssa.Function{entry}, nil)
+	var fns []*ssa.Function
+	for fn := range reach {
+		pk := pkgPathOfFunc(fn)
+		if fn.Blocks == nil || (pk != pkgMaincmd && pk != pkgOpts && pk != pkgConfig) {
+			continue
+		}
+		fns = append(fns, fn)
+	}
+	sort.Slice(fns, func(i, j int) bool { return funcKey(fns[i]) < funcKey(fns[j]) })
+	bad := 0
+	for _, fn := range fns {
+		allCalls(fn, func(c ssa.CallInstruction) {
+			if lbl, ok := mutatorLabel(c); ok {
+				bad++
+				r.Bad(rule, funcKey(fn)+" → "+lbl, p.Pos(instrPos(c)), "a file-system mutation in front of the module code, reachable from an anonymous SSH session: "+g.Chain(reach, fn))
+			}
+		})
+	}
+	if bad == 0 {
+		r.OK(rule, "anonymous exec path scanned", p.Pos(entry.Pos()), fmt.Sprintf("%d functions of maincmd/rsyncopts/rsyncdconfig reachable from anonSSHMain, no mutator", len(fns)))
+	}
+}
+
+// checkFlushNotBeforeLastMatch — C02/FLUSH-AFTER-LASTMATCH: inside the offset
+// loop hashSearch flushes accumulated literal data early with
+// matched(…, offset − D, negative marker). matched computes n = position −
+// lastMatch and moves lastMatch to the position; with n < 0 it sends and hashes
+// nothing and moves lastMatch backwards, after which already-sent bytes are
+// sent and hashed again (the checksum matches the wrong file). So the flush
+// must be dominated by a test (offset − lastMatch) ≥ T — directly or as
+// max(offset − lastMatch, 0) — with T − D ≥ 0 coefficient-wise over the
+// non-negative quantities BlockLength, chunkSize (small affine evaluation, no
+// solver).
+func checkFlushNotBeforeLastMatch(p *Prog, r *Report) {
+	rule := "C02/FLUSH-AFTER-LASTMATCH"
+	r.Rule(rule, "every literal flush matched(…, offset − D, negative) inside hashSearch's scan is dominated by (offset − lastMatch) ≥ T (or max(offset − lastMatch, 0) ≥ T) with T − D ≥ 0 for all non-negative BlockLength: the flush position never lies before lastMatch (affine forms over offset, lastMatch, BlockLength and constants)", 1)
+	g := p.ModGraph()
+	hs := anchorFunc(p, r, pkgSender, "Transfer", "hashSearch")
+	matched := anchorFunc(p, r, pkgSender, "Transfer", "matched")
+	if hs == nil || matched == nil {
+		return
+	}
+	sym := func(v ssa.Value) (string, bool) {
+		v = stripConv(v)
+		if ld, ok := v.(*ssa.UnOp); ok && ld.Op == token.MUL {
+			if al, ok := ld.X.(*ssa.Alloc); ok && al.Comment != "" {
+				return "var " + al.Comment, true
+			}
+			if fv, ok := ld.X.(*ssa.FreeVar); ok {
+				return "var " + fv.Name(), true
+			}
+			if _, f := fieldOfAddr(ld.X); f != nil {
+				return "field " + f.Name(), true
+			}
+		}
+		if fl, ok := v.(*ssa.Field); ok {
+			if st, ok := fl.X.Type().Underlying().(*types.Struct); ok {
+				return "field " + st.Field(fl.Field).Name(), true
+			}
+		}
+		return "", false
+	}
+	ev := &affEval{sym: sym, isSel: func(ssa.Value) (bool, bool) { return false, false }}
+	sub := func(a, b affForm) affForm {
+		out := affForm{}
+		for k, c := range a {
+			out[k] += c
+		}
+		for k, c := range b {
+			out[k] -= c
+		}
+		return out
+	}
+	nonNeg := func(a affForm) bool {
+		for k, c := range a {
+			if c < 0 {
+				return false
+			}
+			if c > 0 && k != "" && !strings.HasPrefix(k, "field BlockLength") && !strings.HasPrefix(k, "field RemainderLength") {
+				return false // only quantities known to be non-negative may remain
+			}
+		}
+		return true
+	}
+	isDistance := func(f affForm) bool { // offset − lastMatch
+		return len(f) == 2 && f["var offset"] == 1 && f["field lastMatch"] == -1
+	}
+	n := 0
+	for _, u := range g.unitFuncs(hs) {
+		allCalls(u, func(c ssa.CallInstruction) {
+			if c.Common().StaticCallee() != matched {
+				return
+			}
+			a := c.Common().Args
+			if k, ok := constInt(a[len(a)-1]); !ok || k >= 0 {
+				return
+			}
+			fx, ok := ev.eval(a[len(a)-2], 0)
+			if !ok || fx["var offset"] != 1 {
+				return // the final flush at the end of the file, not offset-relative
+			}
+			n++
+			d := sub(affForm{"var offset": 1}, fx) // how far behind offset the flush position lies
+			okFlush := false
+			for _, f := range FactsAt(c) {
+				bo, isB := f.Cond.(*ssa.BinOp)
+				if !isB {
+					continue
+				}
+				var lhs, rhs ssa.Value // lhs ≥ rhs
+				switch {
+				case (bo.Op == token.GEQ && f.Val) || (bo.Op == token.LSS && !f.Val):
+					lhs, rhs = bo.X, bo.Y
+				case (bo.Op == token.LEQ && f.Val) || (bo.Op == token.GTR && !f.Val):
+					lhs, rhs = bo.Y, bo.X
+				default:
+					continue
+				}
+				// lhs: offset − lastMatch, or max(offset − lastMatch, 0)
+				dist := stripConv(unwrapLocal(lhs))
+				if mc, isC := dist.(*ssa.Call); isC {
+					if bi, isBi := mc.Common().Value.(*ssa.Builtin); isBi && bi.Name() == "max" && len(mc.Common().Args) == 2 {
+						if k, isK := constInt(mc.Common().Args[1]); isK && k == 0 {
+							dist = mc.Common().Args[0]
+						} else if k, isK := constInt(mc.Common().Args[0]); isK && k == 0 {
+							dist = mc.Common().Args[1]
+						}
+					}
+				}
+				fd, ok1 := ev.eval(dist, 0)
+				ft, ok2 := ev.eval(rhs, 0)
+				if ok1 && ok2 && isDistance(fd) && nonNeg(sub(ft, d)) {
+					okFlush = true
+				}
+			}
+			r.Cond(okFlush, rule, funcKey(u)+" flushes literal data early", p.Pos(instrPos(c)), "the flush position offset − ("+d.String()+") is not shown to be at or after lastMatch by a dominating test (offset − lastMatch) ≥ T with T ≥ "+d.String()+": for a large enough block length matched() gets a negative count, moves lastMatch backwards and data is sent and hashed twice")
+		})
+	}
+	if n == 0 {
+		r.OK(rule, "no early flush in hashSearch", p.Pos(hs.Pos()), "literal data is only flushed at a match and at the end of the file")
+	}
+}
+
+// checkStrongSumFresh — C16/STRONG-SUM-PER-OFFSET: the strong checksum that
+// decides a candidate at offset o has to be the checksum of the window at o.
+// hashSearch computes it lazily (once per offset, shared by the candidates of
+// that offset); it must not survive the step to the next offset: a stale sum
+// makes every later true match look like a false alarm and the rest of the
+// file goes out as literal data (the transfer stays correct, C16 breaks).
+// Decided: the local operand of the bytes.Equal gate (a) does not flow through
+// a phi at the header of the loop that advances the scan offset with anything
+// but nil on a back edge, and (b) if it is a load of a variable declared
+// outside that loop, a store to the variable inside the loop dominates the
+// load (re-established in every iteration).
+func checkStrongSumFresh(p *Prog, r *Report) {
+	rule := "C16/STRONG-SUM-PER-OFFSET"
+	r.Rule(rule, "the strong checksum compared in hashSearch's bytes.Equal gate is computed for the current scan offset: it does not reach the comparison through a phi at the header of the offset-advancing loop carrying a non-nil value around the back edge, nor through a variable that outlives an iteration of that loop without a dominating store in the iteration", 1)
+	g := p.ModGraph()
+	hs := anchorFunc(p, r, pkgSender, "Transfer", "hashSearch")
+	if hs == nil {
+		return
+	}
+	n := 0
+	for _, fn := range g.unitFuncs(hs) {
+		loops := naturalLoops(fn)
+		// loops that advance the scan offset: a store x = x + 1 to a variable named offset
+		var adv []*loopInfo
+		for _, li := range loops {
+			found := false
+			for b := range li.body {
+				for _, in := range b.Instrs {
+					st, ok := in.(*ssa.Store)
+					if !ok {
+						continue
+					}
+					name := ""
+					if al, ok := st.Addr.(*ssa.Alloc); ok {
+						name = al.Comment
+					} else if fv, ok := st.Addr.(*ssa.FreeVar); ok {
+						name = fv.Name()
+					}
+					if name != "offset" {
+						continue
+					}
+					if bo, ok := st.Val.(*ssa.BinOp); ok && bo.Op == token.ADD {
+						if k, isK := constInt(bo.Y); isK && k == 1 {
+							found = true
+						}
+					}
+				}
+			}
+			if found {
+				adv = append(adv, li)
+			}
+		}
+		allCalls(fn, func(c ssa.CallInstruction) {
+			if calleeName(c) != "bytes.Equal" || len(adv) == 0 {
+				return
+			}
+			for _, arg := range c.Common().Args {
+				sl, ok := arg.(*ssa.Slice)
+				if !ok {
+					continue
+				}
+				v := sl.X
+				// only the locally computed side: something that can be a Checksum2 result
+				isLocal := false
+				seenPhi := map[*ssa.Phi]bool{}
+				bad := ""
+				var walk func(v ssa.Value, depth int)
+				walk = func(v ssa.Value, depth int) {
+					if depth > 8 {
+						return
+					}
+					switch x := v.(type) {
+					case *ssa.Call:
+						if calleeName(x) == pkgChecksum+".Checksum2" {
+							isLocal = true
+						}
+					case *ssa.Phi:
+						if seenPhi[x] {
+							return
+						}
+						seenPhi[x] = true
+						for _, li := range adv {
+							if x.Block() != li.header {
+								continue
+							}
+							for i, e := range x.Edges {
+								if li.body[x.Block().Preds[i]] && !isNilConst(e) && e != ssa.Value(x) {
+									bad = "it is carried around the offset loop (phi at " + p.Pos(instrPos(x)) + ")"
+								}
+							}
+						}
+						for _, e := range x.Edges {
+							walk(e, depth+1)
+						}
+					case *ssa.UnOp:
+						if x.Op != token.MUL {
+							return
+						}
+						cell := x.X
+						var cellBlock *ssa.BasicBlock
+						var stores []*ssa.Store
+						switch cl := cell.(type) {
+						case *ssa.Alloc:
+							cellBlock = cl.Block()
+							for _, ref := range *cl.Referrers() {
+								if st, ok := ref.(*ssa.Store); ok && st.Addr == ssa.Value(cl) {
+									stores = append(stores, st)
+								}
+							}
+						case *ssa.FreeVar:
+							// captured from the parent: lives outside this function's loops
+							for _, ref := range *cl.Referrers() {
+								if st, ok := ref.(*ssa.Store); ok && st.Addr == ssa.Value(cl) {
+									stores = append(stores, st)
+								}
+							}
+						default:
+							return
+						}
+						for _, st := range stores {
+							walk(st.Val, depth+1)
+						}
+						for _, li := range adv {
+							if !li.body[x.Block()] || (cellBlock != nil && li.body[cellBlock]) {
+								continue // declared inside the iteration
+							}
+							dom := false
+							for _, st := range stores {
+								if li.body[st.Block()] && InstrDominates(st, x) {
+									dom = true
+								}
+							}
+							if !dom {
+								bad = "it is kept in a variable that outlives the step to the next offset and no store inside the iteration dominates its use at " + p.Pos(instrPos(x))
+							}
+						}
+					}
+				}
+				walk(v, 0)
+				if !isLocal {
+					continue
+				}
+				n++
+				r.Cond(bad == "", rule, funcKey(fn)+" strong checksum of the current offset", p.Pos(instrPos(c)), "the strong checksum compared here may be the one computed at an earlier offset: "+bad+"; after one false alarm every later match is rejected and the rest of the file is sent as literal data")
+			}
+		})
+	}
+	if n == 0 {
+		r.Unk(rule, "strong checksum gate", p.Pos(hs.Pos()), "no bytes.Equal on a Checksum2 result inside a loop that advances `offset`: the search was restructured, re-read")
 	}
 }
